@@ -35,6 +35,7 @@ type Thread struct {
 	parked   bool
 	finished bool
 	started  bool
+	main     bool // must finish for the execution to be complete (initial threads, the finisher)
 	pending  *Op
 	unhooked bool // was seen blocked in an un-hooked operation
 	H        uint64
@@ -79,6 +80,8 @@ type Sched struct {
 	fresh    uint64
 	maxSteps int
 	exp      *Explorer
+	finisher  func()
+	finishing bool
 }
 
 var (
